@@ -684,6 +684,26 @@ int main(int argc, char **argv)
         npairs++;
       }
     }
+    // in the same cell, a distanceVec defined with forceNoPBC: its metric stays the plain Euclidean one (value pairs further
+    // apart than half a cell included), and the gradients must be those of that metric
+    {
+      subject s2;
+      s2.idx = int(subs.size());
+      s2.type = "3vector";
+      s2.name = "3vector@distanceVec_forceNoPBC_in_cell";
+      s2.vt = colvarvalue::type_3vector;
+      s2.man = M_RN;
+      s2.dim = 3;
+      s2.cv = cvm::colvar_by_name("cv_vec_nopbc");
+      subs.push_back(s2);
+      describe(s2);
+      for (std::string const &cl : classes_of(s2)) {
+        for (int i = 0; i < ncases; i++) {
+          run_pair(s2, cl);
+          npairs++;
+        }
+      }
+    }
     px->set_cell(false, 0, 0, 0);
   }
 
